@@ -68,6 +68,14 @@ def memberLzma (K : MfConsts) (o : LzipOpts) (db : Nat) (chunk : Array UInt8) : 
 def memberFast (K : MfConsts) (o : LzipOpts) (db : Nat) (chunk : Array UInt8) : Option (List Nat) :=
   (memberLzma K o db chunk).map fun lzma => LzipFile.memberBytes db lzma (bytesOf chunk)
 
+/-- the members one after the other -/
+def membersFast (K : MfConsts) (o : LzipOpts) (db : Nat) : List (Array UInt8) → Option (List Nat)
+  | [] => some []
+  | c :: cs =>
+    match memberFast K o db c, membersFast K o db cs with
+    | some a, some b => some (a ++ b)
+    | _, _ => none
+
 /-- `LZIPWriter::new(out, options)`, `write_all(data)`, `finish()`.
     `none`: the writer reports an error (`nice_len` outside 8..=273, refused by `LZMAWriter::new` when the first
     member is started) - or, model only, a parse cannot be encoded. -/
@@ -76,6 +84,6 @@ def lzipFastBytes (K : MfConsts) (o : LzipOpts) (d : Array UInt8) : Option (List
   else
     match Lzip.encodeDict (effDict o) with
     | none => none
-    | some db => ((chunks o d).mapM (memberFast K o db)).map List.flatten
+    | some db => membersFast K o db (chunks o d)
 
 end LzmaVerif.LzipWriter
